@@ -22,7 +22,7 @@ LEVEL_TEXT = (
     "coefficients). Metamorphic: invariant under base-scale x c; unchanged when the previous covariance is replaced; with caching the "
     "value follows the cached linearisation, with re-linearisation it ignores it."
 )
-LEVEL_NOTE = "Trusted: NumPy float64 reference with exact IWP transitions; tolerance 1e-8 relative, widened by the measured cancellation in the residual (skipped beyond 1e-3)."
+LEVEL_NOTE = "Trusted: NumPy float64 reference with exact IWP transitions; tolerance 1e-7 relative (observed up to 1.6e-8 on the unchanged tree; smallest seeded effect 8.6e-5), widened by the measured cancellation in the residual (skipped beyond 1e-3)."
 RULE = (
     "structures (solver x estimator options) from a seeded pool, values by Hypothesis; non-trivial = estimate in (1e-3, 1e3) (neither branch of "
     "the acceptance test is trivial); distinct by JSON hash"
@@ -50,8 +50,12 @@ def strategy(ctx):
     def one(draw):
         cfg = draw(st.sampled_from(pool))
         case = draw(ssmcase.values(cfg))
-        case["incs"] = [10.0 ** draw(gen.exponent(-3.0, -0.5))]
-        case["dt"] = 10.0 ** draw(gen.exponent(-5.0, 0.0))
+        # previous accepted step: the same "tighter ranges at the highest orders" as every state-space check (n >= 5: >= 1e-2, n >= 7:
+        # >= 3e-2) - after a tinier step the previous mean's high derivatives are rounding noise amplified by the gain ~ 1/h^(n-2)
+        lo = -3.0 if cfg["n"] < 5 else (-2.0 if cfg["n"] < 7 else -1.5)
+        case["incs"] = [10.0 ** draw(gen.exponent(lo, -0.5))]
+        # the attempted step relative to the previous accepted one: 1/100 .. 20 (what step controllers can propose), inside [1e-5, 1]
+        case["dt"] = float(min(1.0, max(1e-5, case["incs"][0] * 10.0 ** draw(gen.exponent(-2.0, 1.3)))))
         case["atol"] = 10.0 ** draw(gen.exponent(-10.0, -1.0))
         case["rtol"] = 10.0 ** draw(gen.exponent(-10.0, -1.0))
         case["c"] = 10.0 ** draw(gen.exponent(-3.0, 3.0))
@@ -138,6 +142,11 @@ def check_case(case):
     out, (field, C, base_vec) = _call(case)
     ep = float(out["ep"])
     dt, atol, rtol, damp = case["dt"], case["atol"], case["rtol"], case["damp"]
+    # "reachable states": an attempted step more than 20x the previous accepted one cannot be proposed by the controllers (factor_max
+    # <= 20 in everything generated here, default 10). Beyond that ratio the previous mean's high derivatives carry the rounding of the
+    # tiny previous step (gain ~ 1/h^3) and the comparison degrades like (dt/h)^3 (seed-0 false alarm: h = 1e-3, dt = 1, n = 5: 1.6e-5)
+    if float(case["dt"]) > 20.0 * float(case["incs"][0]):
+        raise common.Inconclusive("attempted step more than 20x the previous accepted step: not reachable through the step controllers")
 
     # ---- reference -------------------------------------------------------------------------
     # 50-digit arithmetic throughout: the covariance-form expressions below cancel heavily
@@ -162,7 +171,10 @@ def check_case(case):
     S = H @ Q @ H.T
     for a in range(d):
         S[a, a] = S[a, a] + N.num(damp) ** 2
-    zabs = N.to_float(np.abs(H) @ np.abs(mu) + np.abs(b))
+    # sum of the absolute terms of the residual, *including* those of the extrapolation mu = Phi m_prev (after a tiny previous step the
+    # high derivatives of m_prev are large and the Taylor sum cancels): float64 resolves z to eps x this sum
+    mu_abs = np.abs(Phi) @ np.abs(N.arr(m_prev))
+    zabs = N.to_float(np.abs(H) @ mu_abs + np.abs(b))
     try:
         sigma = spec.whitened_rms(z, S)
     except (ZeroDivisionError, np.linalg.LinAlgError) as err:
@@ -202,7 +214,7 @@ def check_case(case):
     res.nontrivial = 1e-3 < ep_ref < 1e3
 
     kappa = float(np.max(zabs / np.maximum(np.abs(z), 1e-300))) * np.finfo(float).eps
-    tol = max(1e-8 if e["kind"] == "residual" else 2e-5, 100.0 * kappa)
+    tol = max(1e-7 if e["kind"] == "residual" else 2e-5, 100.0 * kappa)  # floor: observed up to 1.6e-8 on the unchanged tree (n = 5, h = 0.01); smallest seeded effect 8.6e-5
     if e["kind"] == "state":
         # the library's square-root update loses eps * sqrt(cancellation) digits in the conditioned std
         cancel = float(np.sqrt(np.max(np.diag(Q)[idx * d : (idx + 1) * d] / np.maximum(std**2, 1e-300)))) * np.finfo(float).eps
